@@ -21,11 +21,19 @@ namespace Bloom
 /-- number of bits, `size + 1` in the Rust code -/
 def nbits (b : Bloom) : Nat := 2 ^ b.exp
 
-/-- `hash >> shift`, `shift = 64 - exp` -/
-def hi (b : Bloom) (h : Nat) : Nat := h / 2 ^ (64 - b.exp)
+/-- `mix`: the finalizer of splitmix64 on `u64` (wrapping multiplications), applied to the hash
+before the probe positions are derived from its highest and lowest bits -/
+def mix64 (h : Nat) : Nat :=
+  let z := h % 18446744073709551616
+  let z := ((z ^^^ (z >>> 30)) * 0xbf58476d1ce4e5b9) % 18446744073709551616
+  let z := ((z ^^^ (z >>> 27)) * 0x94d049bb133111eb) % 18446744073709551616
+  z ^^^ (z >>> 31)
 
-/-- `(hash << shift) >> shift` in `u64` -/
-def lo (b : Bloom) (h : Nat) : Nat := h % 2 ^ b.exp
+/-- `hash >> shift`, `shift = 64 - exp` (of the mixed hash) -/
+def hi (b : Bloom) (h : Nat) : Nat := mix64 h / 2 ^ (64 - b.exp)
+
+/-- `(hash << shift) >> shift` in `u64` (of the mixed hash) -/
+def lo (b : Bloom) (h : Nat) : Nat := mix64 h % 2 ^ b.exp
 
 /-- `(h + i * l) & size` -/
 def pos (b : Bloom) (h i : Nat) : Nat := (b.hi h + i * b.lo h) % 2 ^ b.exp
